@@ -11,3 +11,19 @@ func VerifConnOf(s ManagedMuxSession) net.Conn {
 	}
 	return nil
 }
+
+// VerifMarkPingFailed puts an open session into the state its health check leaves behind when a ping times out without the
+// session closing (State = Error): exactly what healthCheck stores.
+func VerifMarkPingFailed(s ManagedMuxSession, failed bool) {
+	if ms, ok := s.(*muxSession); ok {
+		old := ms.state.Load()
+		if old != nil && old.State == Closed {
+			return
+		}
+		if failed {
+			ms.state.Store(&MuxSessionInfo{State: Error, Err: net.ErrClosed})
+		} else {
+			ms.state.Store(&MuxSessionInfo{State: Connected})
+		}
+	}
+}
